@@ -215,6 +215,13 @@ impl Scenario for History {
             ops.push(HOp::Analyze { file: f, text: t });
         }
         if self.prop == "C07" {
+            // the user looks into a library module of the virtualenv (go-to-definition into site-packages) and closes it again
+            if let Some(lib) = spec.files.iter().find(|f| f.rel.contains("/otherlib/testing_helpers.py")) {
+                if rng.chance(600) {
+                    let at = rng.below(ops.len() + 1);
+                    ops.insert(at, HOp::OpenClose { file: lib.rel.clone() });
+                }
+            }
             ops.push(HOp::Query);
         }
         let _ = disk;
@@ -468,9 +475,9 @@ fn run_history(prop: &str, spec: &WsSpec, ops: &[HOp], root: &Path, scan_first: 
                 if cur.get(file) != Some(d) {
                     continue; // only *unmodified* documents
                 }
+                // (not logged: the cold twin is the server in which this document was never opened)
                 live.document_opened(&root.join(file));
                 live.analyze_file(root.join(file), d);
-                log.push((file.clone(), d.clone()));
                 live.document_closed(&root.join(file));
                 live.cleanup_file_cache(&root.join(file));
                 disturbed = true;
@@ -718,7 +725,10 @@ fn check_cold_twin(res: &mut HRes, live: &Arc<FixtureDatabase>, log: &[(String, 
             continue;
         }
         // mechanism hints (the root causes of these names are repaired; a returning violation keeps the label)
-        let class = if (key.starts_with("available ") || key.starts_with("goto ") || key.starts_with("refs ") || key == "unused") && uncached_conftest {
+        let library_file_indexed = live.file_definitions.iter().any(|e| rel(root, e.key()).contains("/otherlib/"));
+        let class = if library_file_indexed {
+            "RC-OPENED-LIBRARY-FILE-LEAKS"
+        } else if (key.starts_with("available ") || key.starts_with("goto ") || key.starts_with("refs ") || key == "unused") && uncached_conftest {
             "warm-differs-after-close-or-eviction"
         } else if key.starts_with("available ") && has_import_cycle {
             "warm-differs-on-import-cycle"
